@@ -815,6 +815,9 @@ def truthy(v):
     raise OutsideSubset("truthiness of %r" % (ty,))
 
 
+STR_LIKE_SORTS = set()          # names of opaque sorts that stand for strings (set by sidecars)
+
+
 def equals(a, b):
     """Python ==  (for the types modelled; objects compare by identity)."""
     if a.ty == b.ty:
@@ -843,6 +846,12 @@ def equals(a, b):
             return py_eq(to_py(a).t, to_py(b).t)
         except OutsideSubset:
             return z3.BoolVal(False)
+    # an opaque sort a sidecar declares to stand for (one-character) strings: comparing it with a string is a real comparison - the string
+    # is read as the element of the sort it denotes (an uninterpreted injection), NOT as a value of another type that is never equal
+    if isinstance(a.ty, U) and b.ty is STR and a.ty.name in STR_LIKE_SORTS:
+        return a.t == ufun("lit_" + a.ty.name, [b], a.ty).t
+    if isinstance(b.ty, U) and a.ty is STR and b.ty.name in STR_LIKE_SORTS:
+        return b.t == ufun("lit_" + b.ty.name, [a], b.ty).t
     if {a.ty, b.ty} == {INT, BOOL}:
         return coerce(a, INT).t == coerce(b, INT).t
     if isinstance(a.ty, Tup) and isinstance(b.ty, Tup) and len(a.ty.elems) == len(b.ty.elems):
